@@ -8,16 +8,18 @@ theorem recsOkB_eq (s : St) : recsOkB s = gl_recsOkB s := rfl
 theorem fenceOkB_eq (s : St) : fenceOkB s = gl_fenceOkB s := rfl
 theorem tailOkB_eq (s : St) : tailOkB s = gl_tailOkB s := rfl
 theorem headOkB_eq (s : St) : headOkB s = gl_headOkB s := rfl
+theorem recInB_eq (s : St) : recInB s = gl_recInB s := rfl
 
 theorem inv_of_invB {hs : Hist} (h : invB hs = true) : Inv hs := by
   unfold invB invParts at h
   rw [List.all_append] at h
   simp only [Bool.and_eq_true, List.all_cons, List.all_nil, Bool.and_true] at h
-  obtain ⟨hw, h1, h2, h3, h4⟩ := h
+  obtain ⟨hw, h1, h2, h3, h4, h5⟩ := h
   have hwf : WF hs := hw
   obtain ⟨w, hl⟩ := (wf_iff_wfs hs).1 hwf
   exact ⟨⟨w, gl_recsOk_of_check (recsOkB_eq _ ▸ h1), gl_fenceOk_of_check (fenceOkB_eq _ ▸ h2),
-    gl_tailOk_of_check (tailOkB_eq _ ▸ h3), gl_headOk_of_check (headOkB_eq _ ▸ h4)⟩, hl⟩
+    gl_tailOk_of_check (tailOkB_eq _ ▸ h3), gl_headOk_of_check (headOkB_eq _ ▸ h4),
+    gl_recIn_of_check (recInB_eq _ ▸ h5)⟩, hl⟩
 
 theorem invFirstFailure_none {hs : Hist} (h : invFirstFailure hs = none) : Inv hs := by
   apply inv_of_invB
